@@ -195,6 +195,10 @@ def main():
     from . import _rtcprops as R
     sel = lambda c: "C01" in c or c in ("DFA.append_after", "OptionalNode.convert", "LoopNode.convert")
     R.run_contracts("C01", sel, ["DFA.append_after", "OptionalNode.convert", "LoopNode.convert"], ["dfa"], "join", "", [], rep=rep)
+    # proved part (pyvc on the real AST, all action lists / literals): where the front end puts an action - Match.attach, adoption by
+    # ActionNode/ActionSinkNode.set_next, the two-step machine of InterruptableActionNode, the literal and `end` builders
+    from . import c01_proofs
+    c01_proofs.run(rep, "C01")
     rep.fn("DfaCompileCtx.compile", "CodegenCtx.generate_source", "ParseCtx._parse_stmt", "ParseCtx._parse_stmt_seq", "MatchNode.convert", "CaseNode.convert",
            "OptionalNode.convert", "LoopNode.convert", "TryExceptNode.convert", "ForeachNode.convert", "IfElseNode.convert", "InterruptableActionNode.convert",
            "DFA.append_after", "DFA.chain_actions_into", "DFA.chain_actions_at_end", "WaitMatch.convert")
@@ -204,7 +208,11 @@ def main():
                "gcc -O1 executes the generated C as ISO C prescribes (undefined behaviour of the generated code is the subject of C03)")
     rep.trust("gcc", "Lark parse tree of the source", "vf/rtc/regex_contract.py derivative semantics of patterns")
     return rep.finish("Bounded cross-check of the compiler's post-condition: the real generated C parser, run on every enumerated input, behaves as the reference interpreter "
-                      "of the statement language allows. Exact per input; bounded over programs, option sets and inputs; nothing is counted as proved.",
+                      "of the statement language allows. Exact per input; bounded over programs, option sets and inputs. "
+                      "Counted as proved (obligations/discharged) are only the front-end contracts discharged by pyvc from the real AST for all action lists and literals: Match.attach (an action goes to exactly one of "
+                      "start/char/finish, program order kept), adoption by ActionNode.set_next / ActionSinkNode.set_next (own ++ adopted, successor taken over: nothing lost, duplicated or reordered), "
+                      "InterruptableActionNode.convert (the yield alone on the first non-consuming step, the following actions on the second), DirectMatch / CaseDirectMatch / EndMatch.convert (chain shape, "
+                      "start actions on the first byte and on its mismatch transition, per-character actions on every byte, finish actions on the last). The sequencing combinators (append_after, composite converts) are not reached by the verifier.",
                       checker_cmd="./check C01", require_obligations=False)
 
 
